@@ -543,6 +543,9 @@ pub struct LibOpts {
     pub iface: IfaceOpts,
     pub plain_funcs: bool,
     pub inline_ifaces: bool,
+    /// a plain function import may be repeated under a second name (`<name>-twin`, same
+    /// signature), so that one node can be passed as two arguments of one instantiation
+    pub twin_funcs: bool,
 }
 
 impl Default for LibOpts {
@@ -554,6 +557,7 @@ impl Default for LibOpts {
             iface: IfaceOpts::default(),
             plain_funcs: true,
             inline_ifaces: true,
+            twin_funcs: false,
         }
     }
 }
@@ -754,6 +758,15 @@ pub fn gen_world(rng: &mut Rng, pkgs: &[Pkg], pkg_name: &str, opts: &LibOpts, na
             let f = rng.pick(fn_pool).clone();
             if !imports.iter().any(|w| w.extern_name() == f.name) && !exports.iter().any(|w| w.extern_name() == f.name) {
                 imports.push(WorldItem::Func { name: f.name.clone(), func: f });
+            }
+        }
+        if opts.twin_funcs {
+            let twins: Vec<Func> = imports.iter().filter_map(|w| match w { WorldItem::Func { func, .. } => Some(func.clone()), _ => None }).collect();
+            for mut f in twins {
+                if rng.chance(1, 2) {
+                    f.name = format!("{}-twin", f.name);
+                    imports.push(WorldItem::Func { name: f.name.clone(), func: f });
+                }
             }
         }
         for _ in 0..rng.below(3) {
